@@ -37,6 +37,8 @@ var urls = []string{
 	"http://a.example/cr1", "http://a.example/crl ", " http://a.example/crl", "http://a.example/crl\n", "http://а.example/crl", "http://a.example//crl",
 	"http://a.example/./crl", "http://a.example/x/../crl", "http://a.example/CRL", "http://a.example/crl%2fx", "http://user@a.example/crl", "ldap://a.example/crl",
 	"../../etc/passwd", "../decoy/planted", "/abs/path", "", "a\x00b", "..", ".", "notation-123456", strings.Repeat("x", 70000), strings.Repeat("../", 30) + "tmp/x",
+	// very long URLs that agree on their first 3 000 / 69 999 characters and differ only at the very end
+	"http://crl.example/" + strings.Repeat("p", 3000) + "/a.crl", "http://crl.example/" + strings.Repeat("p", 3000) + "/b.crl", strings.Repeat("x", 69999) + "y",
 }
 
 type entryModel struct {
@@ -53,7 +55,7 @@ var (
 
 func main() {
 	r := lib.Start("C15", "exploration")
-	r.Rule = "PRNG sequences of 5-40 Set/Get over a 33-URL alphabet (near-identical strings: case, port, query, fragment, escaping, trailing blank/slash, confusable; traversal, absolute, NUL, 70 kB, empty) with base and delta next-update independently in {-10y,-1h,+1h,+10y}; then corruption of stored entry files (every truncation class, >=200 single-bit flips, swapped/missing/null fields, foreign JSON, trailing bytes, directory in place of the file); distinct by (sequence id, operation index); non-trivial = Get operations and corruption probes"
+	r.Rule = "PRNG sequences of 5-40 Set/Get over a 36-URL alphabet (near-identical strings: case, port, query, fragment, escaping, trailing blank/slash, confusable; traversal, absolute, NUL, 70 kB, empty) with base and delta next-update independently in {-10y,-1h,-3min,-30s,+1h,+2h,+24h,+10y}; then corruption of stored entry files (every truncation class, >=200 single-bit flips, swapped/missing/null fields, foreign JSON, trailing bytes, directory in place of the file); distinct by (sequence id, operation index); non-trivial = Get operations and corruption probes"
 	r.Assumptions = []string{"all next-update instants are >= 1 hour from now", "POSIX file system; inotify available",
 		"for corrupted files only the direction 'a returned bundle is byte-faithful to what the file encodes' and 'a file that is not valid JSON / has no parseable base CRL / has an unparseable non-null delta yields an error' are judged"}
 	// scratch must not live in the monitored TMPDIR decoy
@@ -80,7 +82,9 @@ func main() {
 	}
 	ctx := context.Background()
 	now := time.Now()
-	offs := []time.Duration{-10 * 365 * 24 * time.Hour, -time.Hour, time.Hour, 10 * 365 * 24 * time.Hour}
+	// (an instant that lies 30 s / 3 min in the past when the CRL is minted lies further in the past at every later Get:
+	// "expired" is schedule-independent; fresh ones keep an hour of margin)
+	offs := []time.Duration{-10 * 365 * 24 * time.Hour, -time.Hour, time.Hour, 10 * 365 * 24 * time.Hour, -30 * time.Second, -3 * time.Minute, 24 * time.Hour, 2 * time.Hour}
 	// a pool of CRLs per offset (minting is not the code under test)
 	type crlT struct {
 		rl    *x509.RevocationList
@@ -88,7 +92,7 @@ func main() {
 	}
 	var pool []crlT
 	for k := 0; k < 160; k++ {
-		o := offs[k%4]
+		o := offs[k%len(offs)]
 		pool = append(pool, crlT{lib.MintCRL(int64(k+1), now.Add(o), (k%7)*300), o > 0})
 	}
 
